@@ -35,7 +35,8 @@ func subSchema(abstract bool) *hx.Schema {
 			{Kind: hx.KObject, Name: "Query", Fields: []*hx.Field{{Name: "a", Type: hx.Named("Int")}}},
 			{Kind: hx.KObject, Name: "Subscription", Fields: []*hx.Field{
 				{Name: "watch", Type: hx.Named("Event"), Args: idArg()}, {Name: "listen", Type: hx.Named("Event"), Args: idArg()},
-				{Name: "things", Type: hx.Named("Thing"), Args: idArg()}, {Name: "items", Type: hx.Named("Item"), Args: idArg()}}},
+				{Name: "things", Type: hx.Named("Thing"), Args: idArg()}, {Name: "items", Type: hx.Named("Item"), Args: idArg()},
+				{Name: "batch", Type: hx.ListOf(hx.Named("Event")), Args: idArg()}}},
 		}}
 	}
 	return &hx.Schema{Types: []*hx.TypeDef{
@@ -45,7 +46,8 @@ func subSchema(abstract bool) *hx.Schema {
 			{Name: "inner", Type: hx.Named("Event")}, {Name: "kind", Type: hx.Named("Kind")}, {Name: "f", Type: hx.Named("Float")}, {Name: "more", Type: hx.ListOf(hx.Named("Event"))}}},
 		{Kind: hx.KObject, Name: "Query", Fields: []*hx.Field{{Name: "a", Type: hx.Named("Int")}}},
 		{Kind: hx.KObject, Name: "Subscription", Fields: []*hx.Field{
-			{Name: "watch", Type: hx.Named("Event"), Args: idArg()}, {Name: "listen", Type: hx.Named("Event"), Args: idArg()}}},
+			{Name: "watch", Type: hx.Named("Event"), Args: idArg()}, {Name: "listen", Type: hx.Named("Event"), Args: idArg()},
+			{Name: "batch", Type: hx.ListOf(hx.Named("Event")), Args: idArg()}}},
 	}}
 }
 
@@ -184,6 +186,9 @@ type Op struct {
 	Frags    []*hx.Frag `json:"frags,omitempty"`
 	ID       string     `json:"id,omitempty"`    // event id (publish) / id (unsubscribe)
 	Event    int        `json:"event,omitempty"` // node of the published event
+	// Events (non-nil): the published event is a list of these nodes (-1: a null member), meant for
+	// the subscribers of the list typed field batch
+	Events []int `json:"events,omitempty"`
 	// ReuseOf > 0: this subscription request is not parsed afresh, the parsed request of the
 	// ReuseOf-th subscribe step (1-based) is resolved again (same selection, same id)
 	ReuseOf int `json:"reuse_of,omitempty"`
@@ -237,6 +242,7 @@ func genCaseC19(rt *rapid.T) *c19Case {
 	// events meant for them use identifiers of their own, and once a concrete subscription matching
 	// every identifier was made only Event nodes are published
 	absPool := []string{"t", "u", "t1", "tu", "u2"}
+	batchPool := []string{"l", "m", "l1", "lm"}
 	catchAll := false
 	n := rapid.IntRange(5, 40).Draw(rt, "steps")
 	subs := 0
@@ -270,6 +276,13 @@ func genCaseC19(rt *rapid.T) *c19Case {
 				if op.Wildcard {
 					op.Pattern = rapid.SampledFrom([]string{"t", "u"}).Draw(rt, lab+"absPrefix")
 				}
+			} else if rapid.IntRange(0, 4).Draw(rt, lab+"batchField") == 0 {
+				// a subscription field of a list type: its events are lists, every member gets the selection
+				op.Field = "batch"
+				op.Pattern = rapid.SampledFrom(batchPool).Draw(rt, lab+"batchPattern")
+				if op.Wildcard {
+					op.Pattern = rapid.SampledFrom([]string{"l", "m"}).Draw(rt, lab+"batchPrefix")
+				}
 			} else if op.Wildcard && op.Pattern == "" {
 				catchAll = true
 			}
@@ -301,6 +314,18 @@ func genCaseC19(rt *rapid.T) *c19Case {
 			}
 			c.Ops = append(c.Ops, op)
 		case "publish":
+			if !catchAll && rapid.IntRange(0, 4).Draw(rt, lab+"batchEvent") == 0 {
+				op := Op{Kind: kind, ID: rapid.SampledFrom(batchPool).Draw(rt, lab+"batchEventID"), Events: []int{}}
+				for j := 0; j < rapid.IntRange(0, 3).Draw(rt, lab+"batchLen"); j++ {
+					if rapid.IntRange(0, 4).Draw(rt, fmt.Sprintf("%sbatchNil%d", lab, j)) == 0 {
+						op.Events = append(op.Events, -1)
+					} else {
+						op.Events = append(op.Events, rapid.SampledFrom(eventNodes).Draw(rt, fmt.Sprintf("%sbatchMember%d", lab, j)))
+					}
+				}
+				c.Ops = append(c.Ops, op)
+				continue
+			}
 			if c.Abstract && rapid.Bool().Draw(rt, lab+"absEvent") {
 				op := Op{Kind: kind, ID: rapid.SampledFrom(absPool).Draw(rt, lab+"absEventID")}
 				if catchAll {
@@ -314,9 +339,9 @@ func genCaseC19(rt *rapid.T) *c19Case {
 			c.Ops = append(c.Ops, Op{Kind: kind, ID: rapid.SampledFrom(idPool).Draw(rt, lab+"eventID"),
 				Event: rapid.SampledFrom(eventNodes).Draw(rt, lab+"event")})
 		default:
-			pool := idPool
+			pool := append(append([]string{}, idPool...), batchPool...)
 			if c.Abstract {
-				pool = append(append([]string{}, idPool...), absPool...)
+				pool = append(pool, absPool...)
 			}
 			c.Ops = append(c.Ops, Op{Kind: kind, ID: rapid.SampledFrom(pool).Draw(rt, lab+"unsubID")})
 		}
@@ -496,8 +521,21 @@ func runHistory(cc *c19Case) (ds []hx.Discrepancy, traits map[string]bool, hist 
 				prevMsgs[h] = len(h.msgs)
 			}
 			order = order[:0]
-			cnt, err := w.Root.AddEvent(id, w.NodeValue(evID))
-			hist = append(hist, fmt.Sprintf("publish id=%q event=node%d -> count %d err %v (model: %d matching)", id, evID, cnt, err != nil, len(matching)))
+			var eventValue interface{} = nil
+			if op.Events != nil {
+				members := make([]interface{}, len(op.Events))
+				for j, nid := range op.Events {
+					if nid >= 0 {
+						members[j] = w.NodeValue(nid)
+					}
+				}
+				eventValue = members
+				traits["event-that-is-a-list"] = true
+			} else {
+				eventValue = w.NodeValue(evID)
+			}
+			cnt, err := w.Root.AddEvent(id, eventValue)
+			hist = append(hist, fmt.Sprintf("publish id=%q event=node%d members=%v -> count %d err %v (model: %d matching)", id, evID, op.Events, cnt, err != nil, len(matching)))
 			if cnt != len(matching) {
 				fail("publish(%q) reported %d, the model has %d matching live subscribers", id, cnt, len(matching))
 			}
@@ -517,10 +555,24 @@ func runHistory(cc *c19Case) (ds []hx.Discrepancy, traits map[string]bool, hist 
 					fail("%v received %d messages for one publish", h, len(h.msgs)-prevMsgs[h])
 					continue
 				}
-				x := &hx.Exec{S: c.Schema, G: c.Graph, D: &hx.Doc{Frags: h.frags}, Faults: cc.Faults}
-				exp := x.RunSelection(c.Graph.Nodes[evID], h.sels, nil)
-				want := exp.Data
-				resolveErrors += len(exp.Errors)
+				var want interface{}
+				if op.Events != nil {
+					l := make([]interface{}, len(op.Events))
+					for j, nid := range op.Events {
+						if nid >= 0 {
+							x := &hx.Exec{S: c.Schema, G: c.Graph, D: &hx.Doc{Frags: h.frags}, Faults: cc.Faults}
+							exp := x.RunSelection(c.Graph.Nodes[nid], h.sels, nil)
+							l[j] = exp.Data
+							resolveErrors += len(exp.Errors)
+						}
+					}
+					want = l
+				} else {
+					x := &hx.Exec{S: c.Schema, G: c.Graph, D: &hx.Doc{Frags: h.frags}, Faults: cc.Faults}
+					exp := x.RunSelection(c.Graph.Nodes[evID], h.sels, nil)
+					want = exp.Data
+					resolveErrors += len(exp.Errors)
+				}
 				got := hx.Norm(h.msgs[len(h.msgs)-1])
 				if !hx.Equal(want, got) {
 					fail("%v received %s for event node%d, its selection gives %s", h, hx.Show(got), evID, hx.Show(want))
